@@ -30,7 +30,8 @@ from .gen import B, F, I, NONE, S
 from .genv import VGen
 from .schema_stream import nonrecurrent_vids, printer_tables, to_j, type_vids
 
-JALPHA = [ord(c) for c in "abzAZ01 .-_@\n\t"] + [0xA0, 0x2003, 0x3000, 0x1F600, 0xE9, 11, 12]
+JALPHA = [ord(c) for c in "abzAZ01 .-_@\n\t"] + [0xA0, 0x2003, 0x3000, 0x1F600, 0xE9, 11, 12] + \
+    [ord(c) for c in "|(*+?^$\\[{"]      # regex metacharacters: prefixes / suffixes / literals must be escaped
 JINTS = [0, 1, -1, 2, 3, -3, 5, 10, 255, 10 ** 20, -(10 ** 20)]
 JFLOATS = [F(False, 0, 0), F(False, 1, 0), F(True, 1, 0), F(False, 3, -1), F(False, 1, -1), F(False, 5, 0),
            F(False, 1, 1), F(False, 3602879701896397, -55), F(False, 1, 100)]
